@@ -121,12 +121,21 @@ theorem Buf.addAll_keysDistinct {b : Buf} (h : b.KeysDistinct) (es : List Ent) :
 
 theorem Buf.empty_keysDistinct : ({} : Buf).KeysDistinct := List.Pairwise.nil
 
+/-- `g` is a finalisation of the entries of a transaction committing at `cts`: it keeps the key
+    and resolves the version as `setVersion` does (it may change meta bits: `bitTxn`,
+    `bitValuePointer`). `Ent.atTs cts` and `finEnt d keep cts` (Lemmas/Txn.lean) are instances. -/
+structure Resolves (cts : Nat) (g : Ent → Ent) : Prop where
+  key : ∀ e, (g e).key = e.key
+  ver : ∀ e, (g e).ver = effVer cts e.ver
+
+theorem atTs_resolves (cts : Nat) : Resolves cts (Ent.atTs cts) := ⟨fun _ => rfl, fun _ => rfl⟩
+
 /-- read of the `pendingWrites` map: its entry for `k`, if any -/
-theorem lw_pending_eq_find (cts : Nat) {l : List Ent} (h : l.Pairwise (fun x y => x.key ≠ y.key))
-    (k : Bytes) (ts : Nat) :
-    lw (l.map (Ent.atTs cts)) k ts =
+theorem lw_pending_eq_find {cts : Nat} {g : Ent → Ent} (hg : Resolves cts g) {l : List Ent}
+    (h : l.Pairwise (fun x y => x.key ≠ y.key)) (k : Bytes) (ts : Nat) :
+    lw (l.map g) k ts =
       match l.find? (·.key == k) with
-      | some o => cand k ts (o.atTs cts)
+      | some o => cand k ts (g o)
       | none => none := by
   induction l with
   | nil => rfl
@@ -136,15 +145,15 @@ theorem lw_pending_eq_find (cts : Nat) {l : List Ent} (h : l.Pairwise (fun x y =
     by_cases hk : x.key = k
     · have hb : (x.key == k) = true := by simpa using hk
       rw [hb]
-      have : lw (xs.map (Ent.atTs cts)) k ts = none := by
+      have : lw (xs.map g) k ts = none := by
         apply lw_eq_none
         intro y hy
         obtain ⟨z, hz, rfl⟩ := List.mem_map.mp hy
-        rw [atTs_key]
+        rw [hg.key]
         exact fun hzk => h.1 z hz (hk.trans hzk.symm)
       rw [this, pick_none_left]
     · have hb : (x.key == k) = false := by simpa using hk
-      rw [hb, ih h.2, cand_neg (x := x.atTs cts) (fun hc => hk hc.1), pick_none_right]
+      rw [hb, ih h.2, cand_neg (x := g x) (fun hc => hk ((hg.key x).symm.trans hc.1)), pick_none_right]
 
 theorem lw_filter_map (g : Ent → Ent) (hg : ∀ x, (g x).key = x.key) {l : List Ent} {k : Bytes} {ts : Nat}
     (q : Ent → Bool) (h : ∀ x ∈ l, x.key = k → q x = true) :
@@ -161,10 +170,10 @@ theorem lw_filter_map (g : Ent → Ent) (hg : ∀ x, (g x).key = x.key) {l : Lis
       rw [cand_neg (x := g x) (fun hc => this ((hg x).symm.trans hc.1)), pick_none_right]
 
 /-- one `Txn.modify`: the new operation is read first, then what the buffer meant before -/
-theorem Buf.add_read (cts : Nat) (b : Buf) (hb : b.KeysDistinct) (e : Ent) (k : Bytes) (ts : Nat) :
-    pick (lw ((b.add e).pending.map (Ent.atTs cts)) k ts) (lw ((b.add e).dups.map (Ent.atTs cts)) k ts) =
-      pick (cand k ts (e.atTs cts))
-        (pick (lw (b.pending.map (Ent.atTs cts)) k ts) (lw (b.dups.map (Ent.atTs cts)) k ts)) := by
+theorem Buf.add_read {cts : Nat} {g : Ent → Ent} (hg : Resolves cts g) (b : Buf) (hb : b.KeysDistinct)
+    (e : Ent) (k : Bytes) (ts : Nat) :
+    pick (lw ((b.add e).pending.map g) k ts) (lw ((b.add e).dups.map g) k ts) =
+      pick (cand k ts (g e)) (pick (lw (b.pending.map g) k ts) (lw (b.dups.map g) k ts)) := by
   have hp : (b.add e).pending = b.pending.filter (fun x => x.key != e.key) ++ [e] := rfl
   have hd : (b.add e).dups = (match b.pending.find? (fun x => x.key == e.key) with
       | some o => if o.ver != e.ver then b.dups ++ [o] else b.dups
@@ -172,13 +181,13 @@ theorem Buf.add_read (cts : Nat) (b : Buf) (hb : b.KeysDistinct) (e : Ent) (k : 
   rw [hp, List.map_append, List.map_cons, List.map_nil, lw_snoc, hd]
   by_cases hk : e.key = k
   · subst hk
-    have hfil : lw ((b.pending.filter (fun x => x.key != e.key)).map (Ent.atTs cts)) e.key ts = none := by
+    have hfil : lw ((b.pending.filter (fun x => x.key != e.key)).map g) e.key ts = none := by
       apply lw_eq_none
       intro y hy
       obtain ⟨z, hz, rfl⟩ := List.mem_map.mp hy
       have := (List.mem_filter.mp hz).2
-      rw [atTs_key]; intro hzk; simp [hzk] at this
-    rw [hfil, pick_none_right, lw_pending_eq_find cts hb e.key ts]
+      rw [hg.key]; intro hzk; simp [hzk] at this
+    rw [hfil, pick_none_right, lw_pending_eq_find hg hb e.key ts]
     cases hold : b.pending.find? (fun x => x.key == e.key) with
     | none => simp only []; rw [pick_none_left]
     | some o =>
@@ -187,19 +196,19 @@ theorem Buf.add_read (cts : Nat) (b : Buf) (hb : b.KeysDistinct) (e : Ent) (k : 
       by_cases hv : o.ver = e.ver
       · have hne : (o.ver != e.ver) = false := by simp [hv]
         rw [hne]; simp only [Bool.false_eq_true, if_false]
-        by_cases hc : (e.atTs cts).ver ≤ ts
-        · rw [cand_pos (x := e.atTs cts) (atTs_key cts e) hc,
-            cand_pos (x := o.atTs cts) ((atTs_key cts o).trans hok) (by rw [atTs_ver, hv]; exact hc),
-            ← pick_assoc, pick_absorb (by rw [atTs_ver, atTs_ver, hv]; exact Nat.le_refl _)]
-        · rw [cand_neg (x := e.atTs cts) (fun h => hc h.2),
-            cand_neg (x := o.atTs cts) (fun h => hc (by rw [atTs_ver, ← hv]; exact h.2))]
+        have hvv : (g o).ver = (g e).ver := by rw [hg.ver, hg.ver, hv]
+        by_cases hc : (g e).ver ≤ ts
+        · rw [cand_pos (x := g e) (hg.key e) hc,
+            cand_pos (x := g o) ((hg.key o).trans hok) (by rw [hvv]; exact hc),
+            ← pick_assoc, pick_absorb (by rw [hvv]; exact Nat.le_refl _)]
+        · rw [cand_neg (x := g e) (fun h => hc h.2),
+            cand_neg (x := g o) (fun h => hc (by rw [← hvv]; exact h.2))]
           simp
       · have hne : (o.ver != e.ver) = true := by simp [hv]
         rw [hne]; simp only [if_true, List.map_append, List.map_cons, List.map_nil, lw_snoc]
-  · rw [cand_neg (x := e.atTs cts) (fun h => hk h.1), pick_none_left, pick_none_left]
-    have hfil : lw ((b.pending.filter (fun x => x.key != e.key)).map (Ent.atTs cts)) k ts =
-        lw (b.pending.map (Ent.atTs cts)) k ts := by
-      apply lw_filter_map _ (atTs_key cts)
+  · rw [cand_neg (x := g e) (fun h => hk ((hg.key e).symm.trans h.1)), pick_none_left, pick_none_left]
+    have hfil : lw ((b.pending.filter (fun x => x.key != e.key)).map g) k ts = lw (b.pending.map g) k ts := by
+      apply lw_filter_map _ hg.key
       intro x _ hxk
       simp only [bne_iff_ne, ne_eq]
       intro hxe; exact hk (hxe.symm.trans hxk)
@@ -212,56 +221,54 @@ theorem Buf.add_read (cts : Nat) (b : Buf) (hb : b.KeysDistinct) (e : Ent) (k : 
       have hok : o.key = e.key := by simpa using List.find?_some hold
       split
       · rw [List.map_append, List.map_cons, List.map_nil, lw_snoc,
-          cand_neg (x := o.atTs cts) (fun h => hk (hok.symm.trans h.1)), pick_none_left]
+          cand_neg (x := g o) (fun h => hk (hok.symm.trans ((hg.key o).symm.trans h.1))), pick_none_left]
       · rfl
 
 /-- **the meaning of one internal transaction** (no side condition): the issued operations read
     as "the `pendingWrites` entry first, then `duplicateWrites` latest first". -/
-theorem C27_spec_read (cts : Nat) (b : Buf) (hb : b.KeysDistinct) (es : List Ent) (k : Bytes) (ts : Nat) :
-    pick (lw ((b.addAll es).pending.map (Ent.atTs cts)) k ts) (lw ((b.addAll es).dups.map (Ent.atTs cts)) k ts) =
-      pick (lw (es.map (Ent.atTs cts)) k ts)
-        (pick (lw (b.pending.map (Ent.atTs cts)) k ts) (lw (b.dups.map (Ent.atTs cts)) k ts)) := by
+theorem C27_spec_read {cts : Nat} {g : Ent → Ent} (hg : Resolves cts g) (b : Buf) (hb : b.KeysDistinct)
+    (es : List Ent) (k : Bytes) (ts : Nat) :
+    pick (lw ((b.addAll es).pending.map g) k ts) (lw ((b.addAll es).dups.map g) k ts) =
+      pick (lw (es.map g) k ts) (pick (lw (b.pending.map g) k ts) (lw (b.dups.map g) k ts)) := by
   induction es generalizing b with
   | nil => simp [Buf.addAll, lw_nil]
   | cons e es ih =>
     show pick (lw (((b.add e).addAll es).pending.map _) k ts) (lw (((b.add e).addAll es).dups.map _) k ts) = _
-    rw [ih (b.add e) (Buf.add_keysDistinct hb e), Buf.add_read cts b hb, List.map_cons, lw_cons, pick_assoc]
+    rw [ih (b.add e) (Buf.add_keysDistinct hb e), Buf.add_read hg b hb, List.map_cons, lw_cons, pick_assoc]
 
 /-! ## one internal transaction -/
 
-theorem emit_read (cts : Nat) (b : Buf) (k : Bytes) (ts : Nat) :
-    lw (b.emit.map (Ent.atTs cts)) k ts =
-      pick (lw (b.dups.map (Ent.atTs cts)) k ts) (lw (b.pending.map (Ent.atTs cts)) k ts) := by
+theorem emit_read (g : Ent → Ent) (b : Buf) (k : Bytes) (ts : Nat) :
+    lw (b.emit.map g) k ts = pick (lw (b.dups.map g) k ts) (lw (b.pending.map g) k ts) := by
   unfold Buf.emit; rw [List.map_append, lw_append]
 
-theorem emitFixed_read (cts : Nat) (b : Buf) (k : Bytes) (ts : Nat) :
-    lw (b.emitFixed.map (Ent.atTs cts)) k ts =
-      pick (lw (b.pending.map (Ent.atTs cts)) k ts) (lw (b.dups.map (Ent.atTs cts)) k ts) := by
+theorem emitFixed_read (g : Ent → Ent) (b : Buf) (k : Bytes) (ts : Nat) :
+    lw (b.emitFixed.map g) k ts = pick (lw (b.pending.map g) k ts) (lw (b.dups.map g) k ts) := by
   unfold Buf.emitFixed; rw [List.map_append, lw_append]
 
-theorem seg_spec_read (s : Seg) (k : Bytes) (ts : Nat) :
-    pick (lw ((Buf.addAll {} s.ops).pending.map (Ent.atTs s.cts)) k ts)
-        (lw ((Buf.addAll {} s.ops).dups.map (Ent.atTs s.cts)) k ts) = lw s.issued k ts := by
-  rw [C27_spec_read s.cts {} Buf.empty_keysDistinct s.ops k ts]
-  simp [Seg.issued, lw_nil]
+/-- a buffer filled from empty by the operations `ops` means `ops`, later operations first -/
+theorem buf_spec_read {cts : Nat} {g : Ent → Ent} (hg : Resolves cts g) (ops : List Ent) (k : Bytes) (ts : Nat) :
+    pick (lw ((Buf.addAll {} ops).pending.map g) k ts) (lw ((Buf.addAll {} ops).dups.map g) k ts) =
+      lw (ops.map g) k ts := by
+  rw [C27_spec_read hg {} Buf.empty_keysDistinct ops k ts]
+  simp [lw_nil]
 
-/-- with the intended order (duplicates first) an internal transaction writes what was issued,
-    the last operation per (key, version) winning — unconditionally. -/
-theorem C27_fixed_order_segment (s : Seg) (k : Bytes) (ts : Nat) :
-    lw s.emittedFixed k ts = lw s.issued k ts := by
-  unfold Seg.emittedFixed
-  rw [emitFixed_read, seg_spec_read]
+/-- the intended order (duplicates first) writes what was issued, unconditionally; `g` is any
+    finalisation of the entries (`Resolves`). -/
+theorem C27_fixed_order_buf {cts : Nat} {g : Ent → Ent} (hg : Resolves cts g) (ops : List Ent) (k : Bytes) (ts : Nat) :
+    lw ((Buf.addAll {} ops).emitFixed.map g) k ts = lw (ops.map g) k ts := by
+  rw [emitFixed_read, buf_spec_read hg]
 
-/-- with the code's order (`pendingWrites` first) the same holds when no duplicate collides with
-    the pending entry of its key. -/
-theorem C27_segment_last_wins (s : Seg) (h : s.NoClash) (k : Bytes) (ts : Nat) :
-    lw s.emitted k ts = lw s.issued k ts := by
-  unfold Seg.emitted
-  rw [emit_read, ← seg_spec_read]
-  cases hD : lw ((Buf.addAll {} s.ops).dups.map (Ent.atTs s.cts)) k ts with
+/-- the code's order (`pendingWrites` first) writes what was issued when no duplicate collides
+    with the pending entry of its key. -/
+theorem C27_buf_last_wins {cts : Nat} {g : Ent → Ent} (hg : Resolves cts g) (ops : List Ent)
+    (h : (Buf.addAll {} ops).NoClash cts) (k : Bytes) (ts : Nat) :
+    lw ((Buf.addAll {} ops).emit.map g) k ts = lw (ops.map g) k ts := by
+  rw [emit_read, ← buf_spec_read hg ops k ts]
+  cases hD : lw ((Buf.addAll {} ops).dups.map g) k ts with
   | none => simp
   | some d' =>
-    cases hP : lw ((Buf.addAll {} s.ops).pending.map (Ent.atTs s.cts)) k ts with
+    cases hP : lw ((Buf.addAll {} ops).pending.map g) k ts with
     | none => simp
     | some p' =>
       obtain ⟨hdm, hdk, _⟩ := lw_some_mem hD
@@ -269,8 +276,16 @@ theorem C27_segment_last_wins (s : Seg) (h : s.NoClash) (k : Bytes) (ts : Nat) :
       obtain ⟨d, hd, rfl⟩ := List.mem_map.mp hdm
       obtain ⟨p, hp, rfl⟩ := List.mem_map.mp hpm
       apply pick_comm_of_ver_ne
-      rw [atTs_ver, atTs_ver]
-      exact h d hd p hp ((atTs_key _ d).symm.trans (hdk.trans (hpk.symm.trans (atTs_key _ p))))
+      rw [hg.ver, hg.ver]
+      exact h d hd p hp ((hg.key d).symm.trans (hdk.trans (hpk.symm.trans (hg.key p))))
+
+theorem C27_fixed_order_segment (s : Seg) (k : Bytes) (ts : Nat) :
+    lw s.emittedFixed k ts = lw s.issued k ts :=
+  C27_fixed_order_buf (atTs_resolves s.cts) s.ops k ts
+
+theorem C27_segment_last_wins (s : Seg) (h : s.NoClash) (k : Bytes) (ts : Nat) :
+    lw s.emitted k ts = lw s.issued k ts :=
+  C27_buf_last_wins (atTs_resolves s.cts) s.ops h k ts
 
 /-! ## the whole batch -/
 
